@@ -198,13 +198,33 @@ pub fn c03_worker(ctx: &mut Ctx) {
     }
     ctx.max("max_sweep_events_in_one_call", max_events);
     crate::props::run_known(ctx, &mut |case, op, f32_run| c03_check(case, op, f32_run));
+    // sentinels: the operand pairs of ALL recorded findings (delicate near-degenerate inputs) must return normally for
+    // every operation and float type, except for the (input, operation, float, variant) combinations listed for C03
+    if ctx.shard == 0 && ctx.only_index.is_none() && ctx.variant != "miri" && ctx.variant != "valgrind" {
+        for (case, listed) in crate::props::sentinel_inputs("C03", &ctx.variant) {
+            for op in OPS {
+                for f32_run in [false, true] {
+                    if listed.iter().any(|(o, f)| (o.is_none() || *o == Some(op)) && (f.is_none() || *f == Some(f32_run))) {
+                        continue;
+                    }
+                    ctx.begin("sentinel", 0, &case.desc.replace(' ', "_"));
+                    ctx.cnt("sentinel_calls", 1);
+                    ctx.evaluations += 1;
+                    if let Err((sym, detail)) = c03_check(&case, op, f32_run) {
+                        ctx.violation(&sym, &format!("{} ({}) on the operands of {}: {}", op.name(), float_name(f32_run), case.desc, detail), boolean_replay("C03", &case, Some(op), f32_run, Pairing::MM, json!({})));
+                    }
+                    ctx.end();
+                }
+            }
+        }
+    }
     // large inputs: only in the native variants, on one shard each
     if !slow {
         // (case, operations): the big combs only with the early-stopping operations (their sweep line still holds
         // every segment when the sweep stops), the smaller inputs with all four
         let early = vec![Op::Intersection, Op::Difference];
         let mut large: Vec<(Case, Vec<Op>)> = match ctx.tier {
-            Tier::Quick => vec![(comb_corner_case(150_000), vec![Op::Intersection]), (comb_corner_swapped_case(150_000), early.clone()), (comb_case(25_000), OPS.to_vec()), (big_checkerboard(60), OPS.to_vec())],
+            Tier::Quick => vec![(comb_corner_case(150_000), vec![Op::Intersection]), (comb_corner_swapped_case(150_000), early.clone()), (comb_case(150_000), vec![Op::Intersection]), (comb_case(25_000), OPS.to_vec()), (big_checkerboard(60), OPS.to_vec())],
             Tier::Thorough => vec![(comb_case(250_000), OPS.to_vec()), (comb_corner_case(250_000), vec![Op::Intersection]), (comb_corner_swapped_case(250_000), early.clone()), (comb_corner_case(150_000), vec![Op::Intersection]), (comb_case(60_000), OPS.to_vec()), (big_checkerboard(150), OPS.to_vec()), (big_checkerboard(100), OPS.to_vec())],
         };
         for (slot, (case, ops)) in large.drain(..).enumerate() {
@@ -218,6 +238,15 @@ pub fn c03_worker(ctx: &mut Ctx) {
                 for f32_run in [false, true] {
                     ctx.begin("large", slot, &format!("{} {} {}", case.desc.replace(' ', "_"), op.name(), float_name(f32_run)));
                     ctx.evaluations += 1;
+                    // once more on a thread with the default 2 MiB stack (an overflow kills this worker; the journal names the case)
+                    if !f32_run {
+                        let (a2, b2) = (case.a.clone(), case.b.clone());
+                        let r = std::thread::Builder::new().stack_size(2 << 20).spawn(move || run_any(&a2, &b2, op, false, Pairing::MM).map(|m| m.len())).unwrap().join();
+                        ctx.cnt("large_inputs_run_on_2MiB_thread", 1);
+                        if let Ok(Err(f)) = r {
+                            ctx.violation(&format!("failure:{}", f.symptom()), &format!("{} on {} (2 MiB thread): {:?}", op.name(), case.desc, f), json!({"kind": "generated", "property": "C03", "label": "large", "index": slot, "seed": ctx.seed, "tier": ctx.tier.name(), "variant": ctx.variant}));
+                        }
+                    }
                     if let Err((sym, detail)) = c03_check(&case, op, f32_run) {
                         // do not store 10^6-edge operands in the replay: the construction is deterministic
                         ctx.violation(&sym, &format!("{} ({}) on {}: {}", op.name(), float_name(f32_run), case.desc, detail), json!({"kind": "generated", "property": "C03", "label": "large", "index": slot, "seed": ctx.seed, "tier": ctx.tier.name(), "variant": ctx.variant}));
@@ -1184,6 +1213,25 @@ pub fn c12_check(case: &Case, rng: &mut Rng, threads: usize, reps: usize, calls_
         }
     }
     *counts.entry("operand-snapshots-compared".into()).or_insert(0) += 8;
+    // the same object on both sides must give what an equal copy gives (no dependence on operand identity/addresses);
+    // only for valid operands: A op A of a self-crossing or self-overlapping operand is outside the robust domains
+    if !case.self_crossing && case.family != "S-shared-edge-members" {
+        let ga_copy = ga.clone();
+        for op in OPS {
+            let same = guarded(n, || ga.boolean(&ga, lib_op(op))).map_err(fail_of)?;
+            let copy = guarded(n, || ga.boolean(&ga_copy, lib_op(op))).map_err(fail_of)?;
+            *counts.entry("self-vs-equal-copy-comparisons".into()).or_insert(0) += 1;
+            if bits_of(&same) != bits_of(&copy) {
+                return Err(("determinism".into(), format!("{} of an operand with itself (same object) differs from {} with an equal copy", op.name(), op.name())));
+            }
+            if ga.0.len() == 1 {
+                let p_same = guarded(n, || ga.0[0].boolean(&ga.0[0], lib_op(op))).map_err(fail_of)?;
+                if bits_of(&p_same) != bits_of(&copy) {
+                    return Err(("determinism".into(), format!("{} of a polygon with itself (same object) differs from {} of equal multipolygons", op.name(), op.name())));
+                }
+            }
+        }
+    }
     // repeated calls, after unrelated operations and heap perturbation
     for rep in 0..reps {
         // unrelated work in between: another operation on other data, allocations of random sizes
@@ -1330,6 +1378,24 @@ pub fn c12_worker(ctx: &mut Ctx) {
         let case = if miri {
             // whole operations cost seconds under the interpreter: tiny inputs only
             if i % 2 == 0 { gen_rect(&mut rng, 2) } else { gen_lattice(&mut rng, 1) }
+        } else if i % 5 == 4 {
+            // "for all operands": multipolygons whose members share edges (every selected face is its own polygon);
+            // not valid input, results need not be meaningful, but they must still be reproducible
+            let base = gen_exact(&mut rng, ctx.size());
+            let split = |mp: &MP| -> MP { mp.iter().flat_map(|p| p.iter().map(|r| vec![r.clone()])).collect() };
+            let (w, h) = (rng.range(1, 5) as usize, rng.range(1, 5) as usize);
+            let t = Tess::grid(w, h);
+            let sel: Vec<bool> = (0..w * h).map(|_| rng.below(3) != 0).collect();
+            let cells: MP = t.faces.iter().zip(sel.iter()).filter(|(_, s)| **s).map(|(f, _)| {
+                let mut r: Ring = f.iter().map(|p| (p.0 as f64, p.1 as f64)).collect();
+                r.push(r[0]);
+                vec![r]
+            }).collect();
+            let mut c = base.clone();
+            c.family = "S-shared-edge-members";
+            c.a = if rng.below(2) == 0 { cells } else { split(&base.a) };
+            c.faces = vec![];
+            c
         } else {
             gen_mixed(&mut rng, ctx.size(), &mut rej)
         };
@@ -1337,7 +1403,14 @@ pub fn c12_worker(ctx: &mut Ctx) {
         ctx.begin("mixed", i, "");
         ctx.evaluations += 1;
         let threads = if miri { 2 } else if i % 4 == 0 { 16 } else { 3 };
-        if let Err((sym, detail)) = c12_check(&case, &mut rng, threads, if miri { 0 } else { 3 }, if miri { 2 } else { 4 }, &mut counts) {
+        let res = c12_check(&case, &mut rng, threads, if miri { 0 } else { 3 }, if miri { 2 } else { 4 }, &mut counts);
+        if case.family == "S-shared-edge-members" && matches!(&res, Err((sym, _)) if sym.starts_with("failure:")) {
+            // an invalid operand may make the call fail; only non-reproducibility is a C12 matter
+            ctx.cnt("invalid_input_calls_that_failed_reproducibly_or_not_counted", 1);
+            ctx.end();
+            continue;
+        }
+        if let Err((sym, detail)) = res {
             ctx.violation(&sym, &detail, boolean_replay("C12", &case, None, false, Pairing::MM, json!({"threads": threads})));
         }
         ctx.note_nontrivial(case_hash(&case, ""));
